@@ -14,7 +14,7 @@ from pyasn1.codec.streaming import isEndOfStream
 from pyasn1.codec.streaming import peekIntoStream
 from pyasn1.codec.streaming import readFromStream
 from pyasn1.compat.integer import from_bytes
-from pyasn1.compat.octets import oct2int, octs2ints, ints2octs, null
+from pyasn1.compat.octets import oct2int, octs2ints, ints2octs, octs2str, null
 from pyasn1.error import PyAsn1Error
 from pyasn1.type import base
 from pyasn1.type import char
@@ -461,6 +461,23 @@ class ObjectIdentifierPayloadDecoder(AbstractSimplePayloadDecoder):
 class RealPayloadDecoder(AbstractSimplePayloadDecoder):
     protoComponent = univ.Real()
 
+    @staticmethod
+    def _decimalToReal(chunk):
+        # ISO 6093 NR2/NR3 forms are decimal: going through `float` would
+        # round mantissa to 53 bits and overflow on large exponents
+        text = octs2str(chunk).strip().upper().replace(',', '.')
+
+        mantissa, hasExponent, exponent = text.partition('E')
+        whole, _, fraction = mantissa.partition('.')
+
+        if fraction and not fraction.isdigit():
+            raise ValueError(text)
+
+        if not hasExponent:
+            exponent = 0
+
+        return int(whole + fraction), 10, int(exponent) - len(fraction)
+
     def valueDecoder(self, substrate, asn1Spec,
                      tagSet=None, length=None, state=None,
                      decodeFun=None, substrateFun=None,
@@ -545,10 +562,10 @@ class RealPayloadDecoder(AbstractSimplePayloadDecoder):
                     value = (int(chunk), 10, 0)
 
                 elif fo & 0x3 == 0x2:  # NR2
-                    value = float(chunk)
+                    value = self._decimalToReal(chunk)
 
                 elif fo & 0x3 == 0x3:  # NR3
-                    value = float(chunk)
+                    value = self._decimalToReal(chunk)
 
                 else:
                     raise error.SubstrateUnderrunError(
